@@ -1075,7 +1075,7 @@ func (c *Client) clearPendingOp(op *spb.AFTResult) (*OpResult, error) {
 			// Expected condition, we hav already dequeued this operation because we are treating RIB_ACK as completed
 			// even though we are in FIB programmed mode.
 			return nil, nil
-		case op.GetStatus() == spb.AFTResult_RIB_PROGRAMMED && c.state.SessParams.GetAckType() == spb.SessionParameters_RIB_AND_FIB_ACK:
+		case op.GetStatus() == spb.AFTResult_RIB_PROGRAMMED && c.state.SessParams.GetAckType() == spb.SessionParameters_RIB_AND_FIB_ACK && c.hasTerminalResult(op.GetId()):
 			// This condition occurs when the server sends up a FIB_ACK before a RIB_ACK and hence we have dequeued
 			// the operation. In this case, we don't return an error and simply log that this happened. This is based
 			// on being permissive, but is unexpected since gRPC should maintain the order, and there's no reason that
@@ -1143,6 +1143,21 @@ func (c *Client) clearPendingOp(op *spb.AFTResult) (*OpResult, error) {
 		ServerError:       op.GetErrorDetails().GetErrorMessage(),
 		Details:           det,
 	}, nil
+}
+
+// hasTerminalResult reports whether a FAILED, FIB_PROGRAMMED or FIB_FAILED result for the
+// operation id is in the result queue. The caller holds resultMu (handleModifyResponse).
+func (c *Client) hasTerminalResult(id uint64) bool {
+	for _, r := range c.qs.resultq {
+		if r == nil || r.OperationID != id {
+			continue
+		}
+		switch r.ProgrammingResult {
+		case spb.AFTResult_FAILED, spb.AFTResult_FIB_PROGRAMMED, spb.AFTResult_FIB_FAILED:
+			return true
+		}
+	}
+	return false
 }
 
 // updatePendingElection adds the election ID specified by id to the pending transaction
